@@ -188,7 +188,7 @@ pub fn run(tier: Tier) -> i32 {
     let sigma7 = ['a', 'b', '/', '+', '#', '$', 'é'];
     let sigma9 = ['a', 'A', 'b', '/', '+', '#', '$', 'é', '中'];
     let grids: Vec<(&str, Vec<String>)> = match tier {
-        Tier::Quick => vec![("sigma7^<=4", strings(&sigma7, 4))],
+        Tier::Quick => vec![("sigma7^<=4", strings(&sigma7, 4)), ("sigma9^<=3", strings(&sigma9, 3))],
         Tier::Thorough => vec![
             ("sigma7^<=5", strings(&sigma7, 5)),
             ("sigma9^<=4", strings(&sigma9, 4)),
@@ -221,6 +221,25 @@ pub fn run(tier: Tier) -> i32 {
         true_total += trues;
         valid_pairs_total += valid_topics * valid_filters;
         grid_info.push(json!({"grid": name, "strings": ss.len(), "pairs": pairs, "valid_topic_x_valid_filter_pairs": valid_topics*valid_filters, "pairs_matching_by_reference": trues}));
+    }
+    // one length further on the domain where the result is defined: every valid topic against
+    // every valid filter (the unary functions still see every string of that length)
+    {
+        let bound = if tier == Tier::Quick { 5 } else { 6 };
+        let all = strings(&sigma7, bound);
+        all.par_iter().for_each(|s| check_unary(s, &cs, &reporter, &evals));
+        let topics: Vec<&String> = all.iter().filter(|s| ref_valid_topic(s)).collect();
+        let filters: Vec<&String> = all.iter().filter(|s| ref_valid_filter(s)).collect();
+        let trues: u64 = topics
+            .par_iter()
+            .map(|t| filters.iter().filter(|f| check_pair(t, f, &cs, &reporter)).count() as u64)
+            .sum();
+        let pairs = topics.len() as u64 * filters.len() as u64;
+        evals.fetch_add(pairs * 3, Ordering::Relaxed);
+        pairs_total += pairs;
+        true_total += trues;
+        valid_pairs_total += pairs;
+        grid_info.push(json!({"grid": format!("sigma7^<={bound}, valid topics x valid filters"), "strings": all.len(), "topics": topics.len(), "filters": filters.len(), "pairs": pairs, "valid_topic_x_valid_filter_pairs": pairs, "pairs_matching_by_reference": trues}));
     }
     if true_total < 2 {
         crate::vcore::machinery_error("C12: vacuous grid (no matching pair)");
